@@ -11,6 +11,7 @@ import random
 import argparse
 import importlib
 import traceback
+import zlib
 import multiprocessing as mp
 
 HERE = os.path.dirname(os.path.dirname(os.path.abspath(__file__)))
@@ -92,7 +93,7 @@ def job(args):
         # CPython cross-check of the same contract on random concrete inputs
         if c.native:
             n = c.samples if tier == 'quick' else c.samples * 10
-            rng = random.Random(seed * 7919 + hash(c.id) % 100003)
+            rng = random.Random(seed * 7919 + zlib.crc32(c.id.encode()) % 100003)      # (str hashes differ per process)
             st = {'held': 0, 'failed': 0, 'discarded': 0, 'raised': 0, 'failures': [], 'samples': []}
             tn = time.time()
             for k in range(n):
